@@ -1987,7 +1987,7 @@ def tag_fn(ctx: "Wtp", token: str) -> None:
         # Handle <pre> start tag
         if name == "pre":
             node = _parser_push(ctx, NodeKind.PRE)
-            parse_attrs(node, attrs)
+            parse_attrs(node, ctx._finalize_expand(attrs))
             if also_end:
                 _parser_pop(ctx, False)
             else:
@@ -2031,7 +2031,9 @@ def tag_fn(ctx: "Wtp", token: str) -> None:
         # Handle other start tag.  We push HTML tags as HTML nodes.
         node = _parser_push(ctx, NodeKind.HTML)
         node.sarg = name
-        parse_attrs(node, attrs)
+        # Attribute values may contain encoded templates, links or <nowiki/>;
+        # restore them to text as is done for table attributes
+        parse_attrs(node, ctx._finalize_expand(attrs))
 
         # If the tag contains a trailing slash or it is an empty tag,
         # close it immediately.
